@@ -145,7 +145,7 @@ def mkcase(rng, lat, lon, dist_nm=None, order=None):
         tc = [rng.choice(grp), rng.choice(grp)]
     o = order or rng.choice(("e", "o", "="))
     base = rng.choice((0, 1446332400, 10, rng.randrange(0, 2**31)))
-    gap = rng.choice((1, 2, 5, 9, 0.5))
+    gap = rng.choice((1, 2, 5, 9, 0.5, 0.4))
     te, to = (base + gap, base) if o == "e" else (base, base + gap) if o == "o" else (base, base)
     return {"p0": [lat, lon], "p1": [lat1, lon1], "tc": tc, "ss": rng.randrange(4), "saf": rng.randrange(2),
             "alt": [rng.getrandbits(12), rng.getrandbits(12)], "tbit": rng.randrange(2), "df": rng.choice((17, 17, 18)),
